@@ -69,9 +69,45 @@ Theorem mm_covered_roundtrip_structures (pystr : json -> string) : forall s st j
   exists n' o j', structure Sg pystr n' (PyCls s) j = Ok o /\ has_type Sg (PyCls s) o /\ unstr Sg n' (Some (PyCls s)) o = Ok j' /\ RoundTrip.NEq j j'.
 Proof. pose proof cover_hooks_ok as H. rewrite <- nl_eq in H. exact (mm_roundtrip_structure mm Sg alias_objects plain_classes pystr (fst cov) (snd cov) cover_image cover_names_ok cover_fields_ok2 cover_table_ok H). Qed.
 
-(* (message envelopes are not images in the sense of smatch — their classes carry extra conventions (a params attribute even
-   when the message has none, an unvalidated jsonrpc default) characterised by CatSpec for C09 — so the metamodel-level theorem is
-   instantiated for structures; envelopes are covered by [covered_parse_roundtrip] at the Python-validity level) *)
+(* message envelopes (requests, responses, notifications): literal types of the metamodel side (MM.request_ty / response_ty /
+   notification_ty); their classes are not images in the strict sense of smatch (a params attribute even when the message has
+   none, defaults without validators) but correspond in the weak sense of Link.CorrW, which suffices for validity *)
+Definition row_of_m (m : string) : option Catalog.catrow := find (fun r => String.eqb (Catalog.cm_method r) m) catalogue.
+Definition lit_props (t : ty) : list (string * ty * bool) := match t with TLit ps => ps | _ => [] end.
+Definition msg_pairs : list (string * list (string * ty * bool) * string) :=
+  app (flat_map (fun r => match row_of_m (r_method r) with
+                     | Some row => app (match Catalog.cm_cls row with Some c => [(r_method r, lit_props (request_ty r), c)] | None => [] end)
+                                       (match Catalog.cm_resp row with Some c => [(r_method r, lit_props (response_ty r), c)] | None => [] end)
+                     | None => [] end) (requests mm))
+      (flat_map (fun x => match row_of_m (n_method x) with
+                        | Some row => match Catalog.cm_cls row with Some c => [(n_method x, lit_props (notification_ty x), c)] | None => [] end
+                        | None => [] end) (notifications mm)).
+Definition msg_pair_ok (tp : string * list (string * ty * bool) * string) : bool :=
+  let c := snd tp in
+  match lookup_cls Sg c with
+  | Some fs => none (find_struct mm c) && corrw_b mm Sg alias_objects (props_of_lit (snd (fst tp))) fs && mem c (fst cov)
+  | None => false end.
+Definition covered_msg_pairs := Eval vm_compute in filter msg_pair_ok msg_pairs.
+Definition uncovered_msg_classes : list string := Eval vm_compute in map snd (filter (fun tp => negb (msg_pair_ok tp)) msg_pairs).
+Theorem covered_msg_pairs_ok : forallb msg_pair_ok covered_msg_pairs = true.
+Proof. vm_compute. reflexivity. Qed.
+(* every closed-valid request / response / notification envelope of a covered message class parses, is well-typed and serialises back *)
+Theorem mm_covered_roundtrip_messages (pystr : json -> string) : forall tp j, In tp covered_msg_pairs -> cvalid mm (TLit (snd (fst tp))) j ->
+  exists n' o j', structure Sg pystr n' (PyCls (snd tp)) j = Ok o /\ has_type Sg (PyCls (snd tp)) o /\ unstr Sg n' (Some (PyCls (snd tp))) o = Ok j' /\ RoundTrip.NEq j j'.
+Proof.
+  intros tp j I V. pose proof covered_msg_pairs_ok as H. rewrite forallb_forall in H. specialize (H tp I). unfold msg_pair_ok in H.
+  destruct (lookup_cls Sg (snd tp)) as [fs|] eqn:L; [|discriminate].
+  apply andb_true_iff in H. destruct H as [H G]. apply andb_true_iff in H. destruct H as [NS CB]. apply none_eq in NS.
+  pose proof cover_hooks_ok as HK. rewrite <- nl_eq in HK.
+  exact (mm_roundtrip_literal mm Sg alias_objects plain_classes pystr (fst cov) (snd cov) cover_image cover_names_ok cover_fields_ok2 cover_table_ok HK
+           (snd (fst tp)) (snd tp) fs j L NS CB G V).
+Qed.
+(* the message classes outside this theorem are exactly the expected ones (the response class that reaches the defective hook) *)
+Theorem msg_cover_not_shrunk : forallb (fun c => mem c expected_uncovered_classes || negb (mem c cover_base_classes)) uncovered_msg_classes = true.
+Proof. vm_compute. reflexivity. Qed.
+Example covered_msg_pairs_nonempty : Nat.leb 150 (length covered_msg_pairs) = true.
+Proof. vm_compute. reflexivity. Qed.
+
 Example mm_structures_nonvacuous :
   Nat.leb 300 (length (filter (fun s => mem (s_name s) (fst cov)) (structures mm))) = true.
 Proof. vm_compute. reflexivity. Qed.
@@ -105,3 +141,5 @@ Print Assumptions covered_parse_roundtrip.
 Print Assumptions cover_not_shrunk.
 Print Assumptions mm_covered_roundtrip.
 Print Assumptions mm_covered_roundtrip_structures.
+Print Assumptions mm_covered_roundtrip_messages.
+Print Assumptions msg_cover_not_shrunk.
